@@ -25,6 +25,11 @@ CLAIMS = {
         "Trusted: symx interception layer incl. the token <-> proxy mapping around the C parser (read_csv), z3. Float columns carry concrete sample values (their %.6g text is produced by the real to_csv); pysam VCF is C18.",
         "DESIGN.md 4/C08",
     ),
+    "C13": (
+        "The real do_access (get_regions scanner over in-memory FASTA lines, drop_noncanonical_contigs, subtract of exclude BEDs read by tabio, join_regions) runs on a sequence of up to 6 bases (8 thorough) whose every base is a solver-chosen N/non-N, for every line width, with 0-2 exclude regions with symbolic coordinates and a symbolic min_gap, plus a second sequence (empty, all-N, non-canonical, mixed case). z3 proves per path, for every position: reported iff it is a non-N non-excluded base or lies in an internal gap shorter than min_gap; regions non-empty, sorted, separated by at least one base, inside the sequence; non-canonical names dropped exactly when asked.",
+        "Trusted: symx interception layer, z3; `open` is replaced by in-memory lines, exclude files are StringIO handles. The base sequence is concretised by solver forks (2^L sequences per line width), exclude coordinates and min_gap stay symbolic.",
+        "DESIGN.md 4/C13",
+    ),
     "C14": (
         "The real segfilters.cn/ci/sem/ampdel (squash_by_groups, enumerate_changes, squash_region, weighted_median) run on tables of <= 3 segments (4 thorough) over 1-2 chromosomes with symbolic cn, allele-specific cn, CI bounds, sem, log2, weights (0 reachable), probes and gapped coordinates; the run structure is decided by the solver and per path z3 proves: one output per maximal run of equal level, first start / last end, summed probes and weight, weight-averaged log2 (plain mean at zero weight), no merge across chromosomes, conservation of probes/weight, ampdel keeps only cn = 0 or >= 5. Filter lists (every order, at most one of ci/sem) run through the real do_call with symbolic log2: conservation of probes, weight and per-chromosome span, ordered disjoint outputs, neighbours differ in cn, unique index.",
         "Trusted: symx interception layer incl. the canonical-key groupby patch (hash buckets of pandas are made to respect solver-decided equality), z3. Chain harness uses concrete unequal weights.",
